@@ -391,6 +391,32 @@ def _int(val=0, base=B._MISSING):
     return int(val, base)
 
 
+# ------------------------------------------------------------------------- M8
+def _ascii_case(self, to_upper, orig):
+    """str.upper()/lower() for a symbolic string whose characters are all ASCII (solver-checked):
+    code point arithmetic instead of CrossHair's whole-Unicode case tables"""
+    with NoTracing():
+        with ResumedTracing():
+            n = realize(len(self))
+            cps = [ord(self[i]) for i in range(n)]
+        terms = [c.var if isinstance(c, SymbolicInt) else z3.IntVal(int(c)) for c in cps]
+        space = context_statespace()
+        if not terms or space.smt_fork(z3.And(*[t < 128 for t in terms]), probability_true=0.95):
+            _hit("M8")
+            out = []
+            for c, t in zip(cps, terms):
+                if not isinstance(c, SymbolicInt):
+                    ch = chr(int(c))
+                    out.append(ord(ch.upper() if to_upper else ch.lower()) if int(c) < 128 else int(c))
+                elif to_upper:
+                    out.append(SymbolicInt(z3.If(z3.And(t >= 97, t <= 122), t - 32, t)))
+                else:
+                    out.append(SymbolicInt(z3.If(z3.And(t >= 65, t <= 90), t + 32, t)))
+            return LazyIntSymbolicStr(out)
+        _fallback("M8")
+    return orig(self)
+
+
 # ------------------------------------------------------------------ from_bytes
 def _int_from_bytes(b, byteorder="big", *, signed=False):
     with NoTracing():
@@ -458,6 +484,9 @@ def install():
     OVERRIDES.update({format: _format, str.__mod__: _str_percent_format, hex: _hex,
                       int: _int, bytes.decode: _bytes_decode, int.from_bytes: _int_from_bytes})
     B.make_hex_digit = _make_hex_digit
+    _orig_upper, _orig_lower = AnySymbolicStr.upper, AnySymbolicStr.lower
+    AnySymbolicStr.upper = lambda self: _ascii_case(self, True, _orig_upper)
+    AnySymbolicStr.lower = lambda self: _ascii_case(self, False, _orig_lower)
     _wrap_solver()
 
     orig_enter, orig_exit = _core.Patched.__enter__, _core.Patched.__exit__
